@@ -159,10 +159,14 @@ def units(tier):
         sc = hydro.SOLVERS[key]
         for case in sc.cases: us.append(('%s/%s' % (key, sc.case_name(case)), {'kind': 'hydro', 'key': key, 'case': case, 'tier': tier}))
     us += [(n, dict(k, kind='riemann', tier=tier)) for n, k in rk.units('C02', ['rootspec', 'shocks', 'contact'], tier)]
+    us.append(('guderley', {'kind': 'gud'}))
     return us
 
 
 def run_unit(name, kind, key=None, case=None, tier='quick', pat=None, fam=None):
     if kind == 'hydro': return hydro_unit(key, case, tier)
     if kind == 'piston': return piston_unit(case, tier)
+    if kind == 'gud':
+        from props import guderley_kit
+        return guderley_kit.unit('C02')
     return rk.run_unit('C02', pat, fam, tier)
